@@ -12,11 +12,20 @@
 (*   {"e":"reset","run":r,"pid":p,"n":N}                                      *)
 (*   {"e":"new",  "g":g,"c":{"g":g,"i":i},"id":id}                            *)
 (*   {"e":"alias","g":g,"c":{..},"src":{"k":"ctx"|"bg"|"nil","g":..,"i":..},"id":id} *)
+(*   {"e":"buf",  "g":g,"b":{"g":g,"i":j},"cap":c}  the application made the   *)
+(*        operand slice b (the j-th of goroutine g) with c cells of capacity  *)
 (*   {"e":"log",  "g":g,"k":k,"level":l,"arg":{"k":..,"g":..,"i":..},         *)
+(*        "src":{"k":"lit"|"win","b":{..},"n":n}, "after":[..],               *)
 (*        "w":[{"label":l,"pid":p,"cid":c,"whole":b}, ...]}                   *)
+(*        src = how the operands were passed (written out in the call, or the *)
+(*        first n cells of slice b); after = the cells of b up to its capacity*)
+(*        as the caller found them when the call had returned: j = what the   *)
+(*        application put into cell j, 0 = something else ([] for "lit")      *)
 (*        w = every Write call at the writer that contained the call's unique *)
 (*        message token, tokenised by the harness (cid 0 = no '[cid]' part,   *)
-(*        pid 0 = no prefix, -1 = unparsable prefix)                          *)
+(*        pid 0 = no prefix, -1 = unparsable prefix; whole = one line, ending *)
+(*        in exactly the message the operands AS THE APPLICATION FILLED THEM  *)
+(*        format to)                                                          *)
 (*   {"e":"write","raw":..}  a Write call that belongs to no logging call     *)
 (*        (no action of the specification produces one: always rejected)      *)
 (* Acceptance: every event is consumed.  The high-water mark of consumed      *)
@@ -47,6 +56,7 @@ TReset(e) == /\ e.e = "reset"
              /\ ctxid' = [g \in AllProcs |-> <<>>] /\ origin' = [g \in AllProcs |-> <<>>]
              /\ nlog' = [g \in AllProcs |-> 0]
              /\ out' = <<>>
+             /\ buf' = <<>>
              /\ IF used = floor..next
                 THEN used' = {} /\ floor' = next + 1
                 ELSE UNCHANGED <<used, floor>>
@@ -59,7 +69,7 @@ TFresh(g, c, id) == /\ Quiet(g)
                     /\ id \notin used
                     /\ Hand(c, id)
                     /\ next' = Max(next, id)
-                    /\ UNCHANGED <<rd, pend, nlog, out>>
+                    /\ UNCHANGED <<rd, pend, nlog, out, buf>>
 
 TNew(e) == e.e = "new" /\ TFresh(e.g, e.c, e.id) /\ UNCHANGED floor
 
@@ -70,26 +80,35 @@ TAlias(e) == /\ e.e = "alias"
                 ELSE e.src.k \in {"bg", "nil"} /\ TFresh(e.g, e.c, e.id)
              /\ UNCHANGED floor
 
+\* the application makes an operand slice (not a call of the library)
+TBuf(e) == /\ e.e = "buf"
+           /\ e.b.g = e.g /\ e.b \notin DOMAIN buf /\ e.cap \in Nat
+           /\ buf' = buf @@ (e.b :> Pristine(e.cap))
+           /\ UNCHANGED <<next, used, ctxid, origin, rd, pend, nlog, out, floor>>
+
 \* what the harness read from a Write call against the line of the specification
 Observed(w, line) == /\ w.whole
                      /\ w.label = line.level
                      /\ line.pfx.judged => (w.pid = line.pfx.pid /\ w.cid = line.pfx.cid)
+                     /\ line.ops = Meant(line.src)
 
 TLog(e) == /\ e.e = "log"
            /\ e.k = nlog[e.g] + 1
            /\ e.level \in AllLevels
            /\ \/ /\ Len(e.w) = 1             \* one write, and it is the specification's line
-                 /\ LogCall(e.g, e.level, e.arg, TRUE)
+                 /\ LogCall(e.g, e.level, e.arg, e.src, TRUE)
                  /\ Observed(e.w[1], out'[Len(out')])
               \/ /\ Len(e.w) = 0             \* nothing at the writer: only for a level that
                  /\ e.level \notin Routed    \* Switch does not route to it (Info)
-                 /\ LogCall(e.g, e.level, e.arg, FALSE)
+                 /\ LogCall(e.g, e.level, e.arg, e.src, FALSE)
+           \* the caller's slice after the call is the specification's: untouched, up to its capacity
+           /\ e.src.k = "win" => e.after = buf'[e.src.b]
            /\ UNCHANGED floor
 
 TInit == Init /\ i = 1 /\ floor = FirstId /\ TLCSet(1, 0)
 
 TNext == /\ i <= Len(Trace)
-         /\ LET e == Trace[i] IN TReset(e) \/ TNew(e) \/ TAlias(e) \/ TLog(e)
+         /\ LET e == Trace[i] IN TReset(e) \/ TNew(e) \/ TAlias(e) \/ TBuf(e) \/ TLog(e)
          /\ i' = i + 1
          /\ TLCSet(1, i)
 
